@@ -112,7 +112,7 @@ func verifDocSchema(part int) *schema.Schema {
 			}
 			idx.AddParts(p0)
 			if all != 3 && verifBool("exprpart") {
-				idx.AddParts(&schema.IndexPart{SeqNo: 1, X: &schema.RawExpr{X: "(`n` + 1)"}})
+				idx.AddParts(&schema.IndexPart{SeqNo: 1, X: &schema.RawExpr{X: "(`n` + 1)"}, Desc: verifBool("exprdesc")})
 			}
 			if all != 3 && verifBool("hash") {
 				idx.AddAttrs(&IndexType{T: IndexTypeHash})
